@@ -86,9 +86,9 @@ func parseFamilies(tier string) []family {
 		i /= len(pairCtx)
 		return parseInput{"file", "tag2", strings.Replace(c, "%s", T[i%len(T)]+T[i/len(T)], 1)}
 	}})
-	n3 := 30000
+	n3 := 100000
 	if thorough {
-		n3 = 1200000
+		n3 = 8000000
 	}
 	fams = append(fams, family{"tag3", n3, func(i int, r *fw.Rand) parseInput {
 		c := ctxs[r.Intn(len(ctxs))]
@@ -105,9 +105,9 @@ func parseFamilies(tier string) []family {
 	for _, f := range cp {
 		toks = append(toks, gen.SplitTokens(f))
 	}
-	nEd := 20000
+	nEd := 60000
 	if thorough {
-		nEd = 400000
+		nEd = 3000000
 	}
 	fams = append(fams, family{"token-edit", nEd, func(i int, r *fw.Rand) parseInput {
 		t := toks[i%len(toks)]
@@ -121,9 +121,9 @@ func parseFamilies(tier string) []family {
 	}})
 
 	// (4) random bytes
-	nRnd := 20000
+	nRnd := 60000
 	if thorough {
-		nRnd = 400000
+		nRnd = 3000000
 	}
 	fams = append(fams, family{"random", nRnd, func(i int, r *fw.Rand) parseInput {
 		s := gen.RandomBytes(r, 120)
@@ -154,9 +154,9 @@ func parseFamilies(tier string) []family {
 	fams = append(fams, family{"expr-tok2", len(E) * len(E), func(i int, r *fw.Rand) parseInput {
 		return parseInput{"expr", "expr-tok2", E[i%len(E)] + " " + E[i/len(E)]}
 	}})
-	ne3 := 20000
+	ne3 := 60000
 	if thorough {
-		ne3 = 500000
+		ne3 = 4000000
 	}
 	fams = append(fams, family{"expr-tokN", ne3, func(i int, r *fw.Rand) parseInput {
 		k := 3 + r.Intn(4)
